@@ -190,6 +190,25 @@ def rename_root(e, frm, to, memo):
     return r
 
 
+DELEGATES = {}
+
+
+def bodies(ctx):
+    """the move-application bodies R4-R8 apply to: (summary, produced board, key).  When make_move_new only delegates to the
+    in-place make_move, that is make_move with the final content of its out-parameter."""
+    sn = ctx.an().summary(MN)
+    sm = ctx.an().summary(MM)
+    if sn is not None and sm is not None:
+        rn = norm(sn.ret)
+        if rn[0] == 'after' and rn[2] == MM and norm(rn[3]) == SELF:
+            sig = ctx.facts().fns[MM]['inputs']
+            outp = [i + 1 for i, t in enumerate(sig) if t.startswith('&mut board::Board')]
+            fin = sm.final.get(('p', outp[0])) if len(outp) == 1 else None
+            if fin is not None:
+                return [(sm, fin, MM)]
+    return [(sn, sn.ret, MN)] if sn is not None else []
+
+
 def r12(ctx):
     sm = summary(ctx, MM, 'C02.R1')
     sn = summary(ctx, MN, 'C02.R1')
@@ -236,6 +255,12 @@ def r12(ctx):
             break
     if first is not None and not first['target'][2] and norm(first['value']) == SELF and sm.cfg.dominates(first['blk'], sm.body.return_blocks()[0]):
         ctx.ok('C02.R2', 'make_move begins with `*result = *self` (whole-value store dominating every other access)', where(sm.body, first['line']))
+    # R1: delegation -- make_move_new is `let mut r = *self; self.make_move(m, &mut r); r`
+    rn = norm(sn.ret)
+    if rn[0] == 'after' and rn[2] == MM and norm(rn[3]) == SELF:
+        ctx.ok('C02.R1', 'make_move_new delegates to make_move on a copy of the source: one body, nothing to diverge', where(sn.body))
+        DELEGATES['new->inplace'] = (sm, fin)
+        return sn
     # R1 twin equivalence
     ret = sn.ret
     memo = {}
@@ -635,7 +660,9 @@ def r48(ctx, sn, result=None, KEY=None):
 
 def run(ctx):
     bb(('unit',), ctx.an())
+    DELEGATES.clear()
     sn = r12(ctx)
     r3(ctx)
     if sn is not None:
-        r48(ctx, sn)
+        for s_, res_, key_ in bodies(ctx):
+            r48(ctx, s_, result=res_, KEY=key_)
